@@ -183,6 +183,11 @@ def corpus_cases():
     lines = ["SOLUTION 1", " temp 10", " -water 100", "GAS_PHASE 1", " -fixed_volume", " -volume 0.01", " -temperature 10", " H2O(g) 1.0"]
     out.append(dict(kind="fixedV", db="phreeqc.dat", gases=gases, tc=10.0, vol=0.01, ptot=1.0, p_init=[1.0], heads=heads,
                     input="\n".join(lines + pl + ["END"]) + "\n", corpus=True))
+    gases = ["CO2(g)", "N2(g)"]
+    pl, heads = punch_block(gases)
+    lines = ["SOLUTION 1", " temp 25", "GAS_PHASE 1", " -fixed_volume", " -volume 1", " CO2(g) 1.0", " N2(g) 0.5"]
+    out.append(dict(kind="ideal", ideal_type="fixedV", db="wateq4f.dat", gases=gases, tc=25.0, vol=1.0, ptot=1.5, p_init=[1.0, 0.5], heads=heads,
+                    input="\n".join(lines + pl + ["END"]) + "\n", corpus=True))
     # history repaired by /repo 648a6839: a listed component that is not in the model kept p_soln_x of the previous simulation,
     # which let a spurious fixed-pressure phase appear in the second simulation; must pass now
     gases = ["CO2(g)", "H2O(g)"]
@@ -307,14 +312,22 @@ def history_case(rng, hist):
     nsim = rng.randint(2, 4)
     tc = rng.uniform(5, 150)
     lines, sims = [], []
-    pl, heads = punch_block(gases)
+    pl, heads = punch_block(gases, [(f"eq{i}", f'EQUI("{g}")') for i, g in enumerate(gases)])
     prev = None
     for k in range(nsim):
         if k == 0:
             lines += ["SOLUTION 1", f" temp {tc:.3f}", " pH 7", " units mol/kgw", f" Na {rng.choice([0.01, 0.1, 1.0])}", " Cl 0.1 charge"]
         else:
             lines += ["USE solution 1"]
-        if k > 0 and prev is not None and rng.random() < 0.35:
+        if k > 0 and rng.random() < 0.25:
+            # the same gases as EQUILIBRIUM_PHASES right after a gas-phase calculation (cached pr_* values of the phases)
+            sis = [None if g == "H2O(g)" or rng.random() < 0.3 else float(f"{rng.uniform(-2, 3):.4f}") for g in gases]
+            if all(x is None for x in sis):
+                sis[0] = 0.5 if gases[0] != "H2O(g)" else None
+            lines += ["EQUILIBRIUM_PHASES 1"] + [f" {g} {x:.4f} {rng.choice([10.0, 1.0, 0.0])}" for g, x in zip(gases, sis) if x is not None]
+            cx = dict(kind="pp", si_target=sis)
+            hist["history_pp_after_gas_phase"] = hist.get("history_pp_after_gas_phase", 0) + 1
+        elif k > 0 and prev is not None and rng.random() < 0.35:
             lines += ["USE gas_phase 1"]                       # carried over as saved
             cx = dict(prev)
         else:
@@ -337,12 +350,14 @@ def history_case(rng, hist):
             lines += ["REACTION_TEMPERATURE 1", f" {tc:.3f}"]
         if rng.random() < 0.4:
             lines += ["REACTION 1", f" {rng.choice(['CO2', 'NaCl', 'H2O', 'NH3'])} 1", f" {rng.choice([0.01, 0.1])} moles in {rng.randint(1, 3)} steps"]
-        lines += ["SAVE gas_phase 1"] + (["SAVE solution 1"] if rng.random() < 0.5 else [])
+        if cx["kind"] != "pp":
+            lines += ["SAVE gas_phase 1"]
+            prev = cx
+        lines += (["SAVE solution 1"] if rng.random() < 0.5 else [])
         if k == 0:
             lines += pl
         lines += ["END"]
         sims.append(cx)
-        prev = cx
     hist["history"] = hist.get("history", 0) + 1
     hist[f"history_sims_{nsim}"] = hist.get(f"history_sims_{nsim}", 0) + 1
     hist[f"n_gases_{len(gases)}"] = hist.get(f"n_gases_{len(gases)}", 0) + 1
